@@ -83,6 +83,15 @@ func c17Retry(run *Run, j *histJob) {
 	if n > 1+budget {
 		run.Fail("C17:attempts-exceed-budget", fmt.Sprintf("%d upstream attempts with num_retries=%d (budget %d)", n, sp.NumRetries, budget), replay)
 	}
+	// route actions are applied exactly once per request: every attempt is sent the same finalised headers
+	if sp.RouteHeaderActions {
+		for _, x := range r.Rec {
+			if x.Kind == "up.hdr" && x.Code != 1 {
+				run.Fail("C17:route-actions-applied-more-than-once-on-retry", fmt.Sprintf("attempt %d was sent request headers on which the route's append action is visible %d times (x-tag)", x.K, x.Code), replay)
+				break
+			}
+		}
+	}
 	started := false
 	lastHost := ""
 	gms, tms := sp.effectiveTimeouts()
@@ -271,7 +280,8 @@ func c17(args []string) int {
 	var specs []*Spec
 	n := run.N(450, 8000)
 	for i := 0; i < n; i++ {
-		sp := &Spec{Route: "forward", NHosts: 1 + r.Intn(3), RouteGlobalMs: 5*slot + 20, RetryOn: r.Intn(3) != 0, NumRetries: r.Intn(6)}
+		sp := &Spec{Route: "forward", NHosts: 1 + r.Intn(3), RouteGlobalMs: 5*slot + 20, RetryOn: r.Intn(3) != 0, NumRetries: r.Intn(6),
+			RouteHeaderActions: r.Intn(4) != 0, OrigTag: r.Intn(3) == 0}
 		if r.Intn(3) == 0 {
 			sp.RouteTryMs = slot + 20
 		}
@@ -312,13 +322,13 @@ func c17(args []string) int {
 	// num_retries: exactly 1 + max(3, num_retries) attempts are expected (num_retries >= 9 would run into the listed C03 loop finding)
 	for _, nr := range []int{0, 1, 3, 4, 6} {
 		fail := strings.Split(strings.Repeat("connfail,", 11)+"connfail", ",")
-		specs = append(specs, &Spec{Route: "forward", NHosts: 2, RouteGlobalMs: 400, NumRetries: nr, Pool: fail})
-		sp := &Spec{Route: "forward", NHosts: 2, RouteGlobalMs: 600, RetryOn: true, NumRetries: nr}
+		specs = append(specs, &Spec{Route: "forward", NHosts: 2, RouteGlobalMs: 400, NumRetries: nr, Pool: fail, RouteHeaderActions: true})
+		sp := &Spec{Route: "forward", NHosts: 2, RouteGlobalMs: 600, RetryOn: true, NumRetries: nr, RouteHeaderActions: true, OrigTag: nr%2 == 0}
 		for k := 0; k < 10; k++ {
 			sp.Events = append(sp.Events, Event{AtMs: 20 + 30*k, Kind: "upresp", K: k, Status: 503})
 		}
 		specs = append(specs, sp)
-		specs = append(specs, &Spec{Route: "forward", NHosts: 2, RouteGlobalMs: 900, RouteTryMs: 40, RetryOn: true, NumRetries: nr})
+		specs = append(specs, &Spec{Route: "forward", NHosts: 2, RouteGlobalMs: 900, RouteTryMs: 40, RetryOn: true, NumRetries: nr, RouteHeaderActions: true})
 	}
 	jobs := make([]*histJob, len(specs))
 	for i, sp := range specs {
